@@ -138,6 +138,28 @@ def _ids(t, acc):
 
 
 N_ALIAS = len(TEXTS) * 2
+STMTS = list(BASES) + [EXTRA_BASE]
+
+
+def _explicit_copies(stmts):
+    """the same file with every 'CopyDecay NEW OLD' written out as an explicit Decay block of NEW with OLD's lines"""
+    out = []
+    for st in stmts:
+        if st[0] == "CopyDecay":
+            new, old = st[1], st[2]
+            block, inside = [], False
+            for t in stmts:
+                if t[0] == "Decay" and t[1] == old:
+                    inside = True
+                    block.append(["Decay", new])
+                elif inside:
+                    block.append(t)
+                    if t[0] == "Enddecay":
+                        break
+            out += block
+        else:
+            out.append(st)
+    return out
 
 
 def body_alias(sel: int) -> bool:
@@ -167,6 +189,14 @@ def body_alias(sel: int) -> bool:
         if ids & file_ids:
             return fail(f"decay table {name!r} shares objects with a ModelAlias definition")
     # CopyDecay NEW OLD: equal in everything but the mother
+    # CopyDecay means the same as writing the block out: every table (also the conjugated ones made from copies) agrees
+    if any(st[0] == "CopyDecay" for st in STMTS[b]):
+        q = parse(render(_explicit_copies(STMTS[b]), 0))
+        tp = {m: details(p, m) for m in p.list_decay_mother_names()}
+        tq = {m: details(q, m) for m in q.list_decay_mother_names()}
+        if tp != tq or sorted(p.list_decay_mother_names()) != sorted(q.list_decay_mother_names()):
+            diff = [(m, tp.get(m), tq.get(m)) for m in sorted(set(tp) | set(tq)) if tp.get(m) != tq.get(m)][:2]
+            return fail(f"CopyDecay differs from the written-out block: {diff}")
     cc = p.dict_charge_conjugates()
     for new, old in p.dict_decays2copy().items():
         names = p.list_decay_mother_names()
